@@ -111,14 +111,14 @@ void collectTrace(int which, int event, int iter, const double* e, int n) { g_tr
 Outcome callQ(const MultibodySystem& sys, State& s, const ProjectOptions& o, Vector& errEst) {
     ProjectResults r; bool threw = false;
     g_trace.clear(); if (g_traceVar) *g_traceVar = collectTrace;
-    try { sys.projectQ(s, errEst, o, r); } catch (const std::exception&) { threw = true; }
+    try { sys.projectQ(s, errEst, o, r); } catch (const std::exception& e) { threw = true; if (std::getenv("C09_DEBUG")) std::fprintf(stderr, "projectQ threw: %s\n", e.what()); }
     if (g_traceVar) *g_traceVar = nullptr;
     return fill(r, threw);
 }
 Outcome callU(const MultibodySystem& sys, State& s, const ProjectOptions& o, Vector& errEst) {
     ProjectResults r; bool threw = false;
     g_trace.clear(); if (g_traceVar) *g_traceVar = collectTrace;
-    try { sys.projectU(s, errEst, o, r); } catch (const std::exception&) { threw = true; }
+    try { sys.projectU(s, errEst, o, r); } catch (const std::exception& e) { threw = true; if (std::getenv("C09_DEBUG")) std::fprintf(stderr, "projectU threw: %s\n", e.what()); }
     if (g_traceVar) *g_traceVar = nullptr;
     return fill(r, threw);
 }
@@ -214,6 +214,14 @@ Outcome doProjectQ(Ctx& c, Model& M, State& s, const ProjectOptions& o, const st
     r.restored = bitDiffs(q0, q1) == 0;
     Vector qerr1(nqerr, kNaN); if (realized) qerr1 = s.getQErr();
 
+    if (r.threw && r.status == -1) {
+        // an exception that is NOT projectQ's own failure report (ProjectResults never filled in), e.g. FactorQTZ's "Can't factor a
+        // matrix that has a zero dimension -- got m X 0" when every q is prescribed and a holonomic constraint is violated (thrown
+        // even with DontThrow).  No success is reported, so no clause of the property applies; observed only.
+        vh::Line L = c.I("chk"); L.s("projQ.foreignException"); L.emit(); vh::O("chk").i(1).emit();
+        vh::D(std::string("obs.projQ.foreignException.") + (freeQ(M, s).empty() ? "noFreeQ" : "other") + (o.isOptionSet(ProjectOptions::DontThrow) ? ".despiteDontThrow" : ""));
+        return r;
+    }
     vh::Line L = c.I("projQ"); putOpts(L, o); L.i(mHolo).i(mQuats);
     for (int i = 0; i < nqerr; ++i) L.d(qerr0[i]);
     for (int i = 0; i < mHolo; ++i) L.d(Tp[i]);
@@ -240,7 +248,7 @@ Outcome doProjectQ(Ctx& c, Model& M, State& s, const ProjectOptions& o, const st
         if (r.status == 0 && !r.threw && finiteV(q1) && finiteV(errEst) && r.anyChange) {
             double w = 0; for (int f : qi.firstQ) { bool free = true; for (int pi : pres) if (pi == f) free = false; if (!free) continue;
                 double d = 0; for (int i = 0; i < 4; ++i) d += errEst[f + i] * q1[f + i]; w = std::max(w, std::abs(d)); }
-            if (w > 1e-12) vh::D("obs.projQ.errEst_not_orthogonal_to_quaternion");
+            if (w > 1e-12 * std::max(1.0, ceq::maxAbs(errEst))) vh::D("obs.projQ.errEst_not_orthogonal_to_quaternion");
         }
     }
 
@@ -300,6 +308,11 @@ Outcome doProjectU(Ctx& c, Model& M, State& s, const ProjectOptions& o, const st
     r.restored = bitDiffs(u0, u1) == 0;
     Vector uerr1(m, kNaN); if (realized) uerr1 = s.getUErr();
 
+    if (r.threw && r.status == -1) {
+        vh::Line L = c.I("chk"); L.s("projU.foreignException"); L.emit(); vh::O("chk").i(1).emit();
+        vh::D(std::string("obs.projU.foreignException.") + (freeU(M, s).empty() ? "noFreeU" : "other") + (o.isOptionSet(ProjectOptions::DontThrow) ? ".despiteDontThrow" : ""));
+        return r;
+    }
     vh::Line L = c.I("projU"); putOpts(L, o); L.i(m);
     for (int i = 0; i < m; ++i) L.d(uerr0[i]);
     for (int i = 0; i < m; ++i) L.d(Tpv[i]);
